@@ -127,7 +127,7 @@ func TestC04(t *testing.T) {
 	}
 	run.Require("interleaved_histories_judged", int64(nh*2/3))
 	// an attempt that times out before any response byte ("refused, reset, unreachable or timed
-	// out"): the first candidate accepts the request and never answers; response_timeout is 1 s
+	// out"): the first candidate accepts the request and never answers; response_timeout is 2.5 s
 	for _, eng := range []string{"sherpa", "olla"} {
 		for _, bal := range []string{"priority", "round-robin"} {
 			timedOutAttempt(run, eng, bal, id)
@@ -558,7 +558,7 @@ func sameNameEndpoints(run *rep.Run, eng string, id int) {
 }
 
 func timedOutAttempt(run *rep.Run, eng, bal string, id int) {
-	f, err := fw.New(fw.Opt{Engine: eng, Balancer: bal, N: 2, Spec: func(s *world.Spec) { s.RespTimeout = time.Second }})
+	f, err := fw.New(fw.Opt{Engine: eng, Balancer: bal, N: 2, Spec: func(s *world.Spec) { s.RespTimeout = 2500 * time.Millisecond }})
 	if err != nil {
 		run.Inconclusive("world failed to start: " + err.Error())
 		return
@@ -569,7 +569,7 @@ func timedOutAttempt(run *rep.Run, eng, bal string, id int) {
 	// with, the request can only be served after a timed-out attempt or by luck
 	for round := 0; round < 3; round++ {
 		f.Readmit()
-		c := f.Run(hc, fmt.Sprintf("to%dr%d", id, round), []fw.Fault{{Kind: "stall_before_headers"}, {Kind: "ok"}}, "", nil, nil)
+		c := f.Run(hc, fmt.Sprintf("to%dr%d", id, round), []fw.Fault{{Kind: "stall_before_headers", StallMS: 8000}, {Kind: "ok"}}, "", nil, nil)
 		tried0 := false
 		for _, a := range c.Attempts {
 			if a.Backend == 0 {
@@ -582,9 +582,9 @@ func timedOutAttempt(run *rep.Run, eng, bal string, id int) {
 		}
 		run.Count("timed_out_attempt_cases", 1)
 		run.Eval(fmt.Sprintf("timed-out/%s/%s/%d", eng, bal, round))
-		wit := map[string]any{"engine": eng, "balancer": bal, "client": c.Res, "attempts": c.Attempts, "response_timeout": "1s"}
+		wit := map[string]any{"engine": eng, "balancer": bal, "client": c.Res, "attempts": c.Attempts, "response_timeout": "2.5s"}
 		if !(c.Res.Status >= 200 && c.Res.Status < 300) {
-			run.Violation("C04/timed-out-attempt/not-failed-over/"+eng, fmt.Sprintf("b0 accepted the request and sent nothing for response_timeout (1 s), b1 is fine, yet the client got %d", c.Res.Status), wit)
+			run.Violation("C04/timed-out-attempt/not-failed-over/"+eng, fmt.Sprintf("b0 accepted the request and sent nothing for response_timeout (2.5 s), b1 is fine, yet the client got %d", c.Res.Status), wit)
 			continue
 		}
 		// out of rotation until a health check readmits it
